@@ -30,7 +30,9 @@ pub fn cases(mode: &'static str, recvs: &'static BTreeMap<&'static str, RecvDesc
         }
         sc.env.faults.clear();
         let base = run::run(&sc, recvs);
-        if base.harness_error.is_some() || base.log.is_empty() {
+        // (inputs with more than a hundred items exist in the seeded runs; as canonical inputs of an
+        // every-call-times-every-fault sweep they would cost minutes)
+        if base.harness_error.is_some() || base.log.is_empty() || base.log.len() > 48 {
             continue;
         }
         *n += 1;
